@@ -30,6 +30,7 @@ NOT_DECIDED = ["content equality of copied/merged/rewritten/repaired snapshots w
 
 def run(ctx, rep):
     prog = ctx.prog
+    wiring_rule(ctx, rep, "C12")
     for r, tx in (("C12.a", "typed blob identity in the shared indexer"), ("C12.b", "copy_fast only within one repository"), ("C12.c", "durable-before-visible ordering"),
                   ("C12.d", "copy selects with the typed destination index"), ("C12.e", "merge picks the maximum and merges all subtrees"),
                   ("C12.f", "repair keeps exactly the blobs still indexed"), ("C12.g", "rewrite removes only ignored paths"),
